@@ -13,7 +13,7 @@ FEATURES = ('windows', 'timeouts', 'nesting', 'forever', 'failures',
             'critical', 'never', 'slow_cleanup', 'slow_handlers', 'stalls',
             'verbose', 'coro', 'zero_jobs', 'sd_none', 'never_handler',
             'inspect', 'cleanup_exc', 'self_cancel', 'odd_labels',
-            'crit_method')
+            'crit_method', 'odd_objects')
 
 # probability that a feature is enabled at all in a run
 BASE_PROFILE = {
@@ -22,7 +22,7 @@ BASE_PROFILE = {
     'slow_handlers': 0.3, 'stalls': 0.2, 'verbose': 0.15, 'coro': 0.4,
     'zero_jobs': 0.35, 'sd_none': 0.2, 'never_handler': 0.1, 'inspect': 0.2,
     'cleanup_exc': 0.15, 'self_cancel': 0.15, 'odd_labels': 0.2,
-    'crit_method': 0.25,
+    'crit_method': 0.25, 'odd_objects': 0.25,
     'max_jobs': 14, 'max_depth': 3, 'pure_top': 0.3,
 }
 
@@ -99,6 +99,14 @@ class _Gen:
             # criticality given by the job class's own is_critical(); the
             # constructor's flag says the opposite
             node["crit_method"] = True
+        if feat['odd_objects'] and rng.random() < 0.4:
+            node["falsy"] = True                # bool(job) is False
+        if feat['odd_objects'] and rng.random() < 0.3:
+            node["ret_awaitable"] = True        # returns an awaitable object
+        if feat['odd_objects'] and rng.random() < 0.5:
+            # how its requirements are handed over: the job itself rather
+            # than a list, a generator, nested containers with None
+            node["req_shape"] = rng.choice(("bare", "iter", "nested"))
         if feat['odd_labels'] and rng.random() < 0.4:
             node["label"] = rng.choice((None, "{}", "echo ${HOME} {0}",
                                         "50% {x} %s", "a\nb"))
@@ -150,6 +158,13 @@ class _Gen:
                 if not top else rng.random() < 0.5
             if feat['crit_method'] and rng.random() < 0.3:
                 node["crit_method"] = True
+            if feat['odd_objects'] and rng.random() < 0.3:
+                node["req_shape"] = rng.choice(("bare", "iter", "nested"))
+            if feat['crit_method'] and not node.get("crit_method") \
+                    and not top and rng.random() < 0.3:
+                node["crit_late"] = True
+        if feat['odd_objects'] and rng.random() < 0.3:
+            node["odd_len"] = True
         # members
         room = max(1, self.budget - self.n_jobs)
         n = min(room, rng.choice((1, 2, 2, 3, 3, 4, 5, 6, 7)))
